@@ -753,18 +753,25 @@ func overflowFirst(c cfg, events []ev) error {
 		return fmt.Errorf("VERIF-HANG a log call under the Discard policy waited for the stalled appenders")
 	}
 	close(gate.Release)
-	// drained = the record counts have been stable for 30 ms (nothing else is logging)
-	last, stable := -1, time.Now()
-	for deadline := time.Now().Add(20 * time.Second); time.Now().Before(deadline); time.Sleep(2 * time.Millisecond) {
-		n := 0
-		for _, r := range vk.AllRecs() {
-			n += r.Len()
+	// drained: the queue is FIFO, so once a sentinel event logged now has been delivered, everything
+	// before it has been. (Under Discard a sentinel may itself be dropped while the queue is still
+	// full: then the next one is tried.)
+	drained := false
+	for n, deadline := 0, time.Now().Add(30*time.Second); !drained && time.Now().Before(deadline); n++ {
+		sid := int64(2_000_000 + n)
+		emit(ev{ID: sid, Entry: "Record", Level: pre.Level, Tag: "a"})
+		for until := time.Now().Add(500 * time.Millisecond); !drained && time.Now().Before(until); time.Sleep(time.Millisecond) {
+			for _, r := range vk.AllRecs() {
+				for _, it := range r.Items() {
+					if it.ID == sid || (it.Raw && vk.IDFromLine(it.Bytes) == sid) {
+						drained = true
+					}
+				}
+			}
 		}
-		if n != last {
-			last, stable = n, time.Now()
-		} else if time.Since(stable) > 30*time.Millisecond {
-			break
-		}
+	}
+	if !drained {
+		return fmt.Errorf("VERIF-INCONCLUSIVE: the overflowed asynchronous logger did not drain within 30 s")
 	}
 	for k := range c.Refs {
 		vk.SetBehavior(fmt.Sprintf("r%d", k), nil)
@@ -885,6 +892,9 @@ func TestC01_Generated(t *testing.T) {
 			vk.NonTrivial(c.Kind + c.Layout + c.Logger.String() + strings.Join(norm, ",") + strings.Join(lv, ","))
 		}
 		if err := runCase(t, c, m, events); err != nil {
+			if strings.Contains(err.Error(), "VERIF-INCONCLUSIVE") {
+				t.Fatalf("%v (config: %s)", err, c.desc())
+			}
 			t.Fatalf("VERIF-VIOLATION C01: %v\nconfig: %s", err, c.desc())
 		}
 		vk.Sample(map[string]any{"config": c.desc(), "events": len(events)})
@@ -933,6 +943,9 @@ func TestC01_Concurrent(t *testing.T) {
 		vk.Class("concurrent:kind:" + c.Kind)
 		vk.NonTrivial(fmt.Sprintf("concurrent/%s/%d/%d", c.desc(), c.Conc, reps))
 		if err := runCase(t, c, m, events); err != nil {
+			if strings.Contains(err.Error(), "VERIF-INCONCLUSIVE") {
+				t.Fatalf("%v (config: %s)", err, c.desc())
+			}
 			t.Fatalf("VERIF-VIOLATION C01: %v\nconfig: %s", err, c.desc())
 		}
 	})
